@@ -10,6 +10,7 @@ CONSTANTS
   BulkVersionsUsesEpoch = TRUE
   FillPolicy = "if_same_generation"
   FlushIgnoresCleanFlag = TRUE
+  FlushBumpsGeneration = TRUE
   Export = FALSE
   MaxSteps = 4
   WithReads = FALSE
